@@ -433,6 +433,15 @@ func c02Prop(t *rapid.T) {
 			}
 		}
 		op := c02GenOp(t, len(w.History()) == 0, i+1)
+		// a quarter of the upgrades re-apply the chart of the deployed revision unchanged (drift correction)
+		if op.Kind == "upgrade" {
+			if d := deployedRevs(w.History()); len(d) == 1 && rapid.IntRange(0, 3).Draw(t, "sameChart") == 0 {
+				if sp, ok := j.specOf[d[0]]; ok {
+					op.Chart = sp
+					lbl["unchanged-chart-upgrade"] = true
+				}
+			}
+		}
 		oobManaged := len(j.oobSince) > 0
 		cut, res := j.runStep(c02Step{Op: op})
 		fp = append(fp, op.Describe())
